@@ -19,6 +19,7 @@ var vkPool = [][]byte{
 	nil, // id 0: unused
 	bytes.Repeat([]byte{0xa1}, 16), bytes.Repeat([]byte{0xb2}, 16), bytes.Repeat([]byte{0xc3}, 24), bytes.Repeat([]byte{0xd4}, 32),
 	bytes.Repeat([]byte{0xe5}, 10), {}, bytes.Repeat([]byte{0xf7}, 17),
+	bytes.Repeat([]byte{0x18}, 20), bytes.Repeat([]byte{0x29}, 28), // between the valid lengths
 }
 
 func vkID(k []byte) int64 {
@@ -123,7 +124,7 @@ func vkGen(r *vfRng) vfCase {
 	for i := 0; i < npre; i++ {
 		id := 1 + r.n(4)
 		if r.chance(10) {
-			id = 1 + r.n(7)
+			id = 1 + r.n(9)
 		}
 		cfg = append(cfg, int64(id))
 	}
@@ -140,7 +141,7 @@ func vkGen(r *vfRng) vfCase {
 	for i := 0; i < n; i++ {
 		k := int64(1 + r.n(4))
 		if r.chance(12) {
-			k = int64(1 + r.n(7))
+			k = int64(1 + r.n(9))
 		}
 		switch p := r.n(100); {
 		case p < 25:
@@ -237,6 +238,32 @@ func vkRotation(st *vfStats, n int, r *vfRng, exhaustive bool) {
 	st.Extra[fmt.Sprintf("rotation_n%d_pair_checks", n)] = pairs
 }
 
+// every key length from 0 to 48 through every way of installing a key: only 16, 24 and 32 bytes are keys
+func vkLengths(st *vfStats) {
+	for l := 0; l <= 48; l++ {
+		k := bytes.Repeat([]byte{byte(l + 1)}, l)
+		want := l == 16 || l == 24 || l == 32
+		if (ValidateKey(k) == nil) != want {
+			st.Extra["oracle_key_lengths"] = fmt.Sprintf("ValidateKey accepts=%v a %d-byte key", !want, l)
+			return
+		}
+		ring, _ := NewKeyring(nil, vkPool[1])
+		if (ring.AddKey(k) == nil) != want || (len(ring.GetKeys()) == 2) != want {
+			st.Extra["oracle_key_lengths"] = fmt.Sprintf("AddKey installs=%v a %d-byte key", !want, l)
+			return
+		}
+		if _, err := NewKeyring([][]byte{k}, vkPool[1]); (err == nil) != want {
+			st.Extra["oracle_key_lengths"] = fmt.Sprintf("NewKeyring accepts=%v a %d-byte key in the list", !want, l)
+			return
+		}
+		if _, err := NewKeyring(nil, k); (err == nil) != (want || l == 0) {
+			st.Extra["oracle_key_lengths"] = fmt.Sprintf("NewKeyring accepts=%v a %d-byte primary", !want, l)
+			return
+		}
+	}
+	st.Extra["key_lengths_swept"] = 49
+}
+
 // just enough of a node to use its stream sealing functions
 func vkShell(r *Keyring) *Memberlist {
 	cfg := DefaultLANConfig()
@@ -276,6 +303,7 @@ func TestVfKeyring(t *testing.T) {
 			cases = append(cases, vkGen(r))
 		}
 		vkRotation(st, 3, r, true)
+		vkLengths(st)
 		vkRotation(st, 5, r, false)
 	}
 	for i := range cases {
